@@ -93,7 +93,50 @@ class Res(object):
             return None
 
 
+def _state_containers_fixed(ctx):
+    """C20.6: the evaluation works on the containers it took out of the
+    shared state at its start (``suspended = state['suspended']``): a
+    suspension it records must be seen by the next evaluation, so the
+    entries of the state dictionary are never re-bound after the dictionary
+    was built - watchers and evaluation change them in place.  A watcher
+    that replaces state['suspended'] by a filtered copy makes an evaluation
+    in flight write its suspension into the discarded dictionary."""
+    mod = ctx.index.module(MON)
+    rebinds = []
+    holders = 0
+
+    def visit(node, depth):
+        nonlocal holders
+        for child in ast.iter_child_nodes(node):
+            inner = depth + 1 if isinstance(
+                child, (ast.FunctionDef, ast.AsyncFunctionDef)) else depth
+            if isinstance(child, (ast.Assign, ast.AugAssign)):
+                tgts = child.targets if isinstance(child, ast.Assign) \
+                    else [child.target]
+                for tgt in tgts:
+                    if isinstance(tgt, ast.Subscript) and \
+                            isinstance(tgt.value, ast.Name) and \
+                            tgt.value.id == 'state' and \
+                            isinstance(tgt.slice, ast.Constant) and \
+                            tgt.slice.value in ('suspended', 'monitors'):
+                        rebinds.append(child)
+                if isinstance(child, ast.Assign) and isinstance(
+                        child.value, ast.Subscript) and N.txt(
+                            child.value) in ("state['suspended']",
+                                             "state['monitors']"):
+                    holders += 1
+            visit(child, inner)
+    visit(mod.tree, 0)
+    ctx.require(holders >= 1, "a routine holding state['suspended'] / "
+                "state['monitors'] in a local", rule='C20.6')
+    ctx.ob('C20.6', mod.name, rebinds[0] if rebinds else None, not rebinds,
+           "state['suspended'] and state['monitors'] are changed in place, "
+           'never re-bound (an evaluation in flight holds the old object)',
+           construct='state containers are not re-bound', file=mod.rel)
+
+
 def check(ctx):
+    _state_containers_fixed(ctx)
     index = ctx.index
     mod = index.module(MON)
     func = mod.functions.get('reevaluate')
